@@ -89,7 +89,24 @@ impl ProgramLines {
         for (line_number, tokens) in self.list_tokens() {
             let line = tokens
                 .iter()
-                .map(|token| token.to_string())
+                .enumerate()
+                .map(|(i, token)| {
+                    let text = token.to_string();
+                    // Whitespace is insignificant, so a numeral that directly follows
+                    // an identifier must not start with a digit, or it would be read
+                    // back as part of the identifier. Such a numeral can only have
+                    // been entered with a leading decimal point (e.g. `X .5`), so
+                    // spell it that way again.
+                    let follows_symbol = i > 0 && matches!(tokens[i - 1], Token::Symbol(_));
+                    if follows_symbol && matches!(token, Token::NumericLiteral(_)) {
+                        if let Some(fraction) = text.strip_prefix("0.") {
+                            return format!(".{fraction}");
+                        } else if text == "0" {
+                            return ".0".to_string();
+                        }
+                    }
+                    text
+                })
                 .collect::<Vec<String>>()
                 .join(" ");
             let line_source = format!("{} {}\n", line_number, line);
